@@ -48,6 +48,8 @@ type binCase struct {
 	P39On      bool     `json:"p39on"`                // -p39 given (also implied by a non-empty P39 in older replay files)
 	P39Term    string   `json:"p39term"`              // how the typed line ends: lf | crlf | eof
 	Dialog     string   `json:"dialog"`               // first-time run without .secret, password typed at the prompts: save_y | save_n | retry_y | single_y | ask_p | mismatch ("" = not exercised)
+	CfgNoNL    bool     `json:"cfgnonl"`              // wallet.cfg ends without a line end
+	Imp        impSpec  `json:"imp"`                  // how the exported keys are written into the .others file of the importing wallet
 	CRLF       bool     `json:"crlf"`                 // wallet.cfg written with CR LF line ends
 	Via        string   `json:"via"`                  // stdin | file (.secret)
 	Flags      bool     `json:"flags"`                // options as command-line switches instead of wallet.cfg lines
@@ -319,7 +321,11 @@ func setupWallet(dir string, c binCase) (args []string, stdin []byte, err error)
 		if c.CRLF {
 			eol = "\r\n"
 		}
-		if err = os.WriteFile(filepath.Join(dir, "wallet.cfg"), []byte(strings.Join(cfg, eol)+eol), 0o600); err != nil {
+		last := eol
+		if c.CfgNoNL {
+			last = ""
+		}
+		if err = os.WriteFile(filepath.Join(dir, "wallet.cfg"), []byte(strings.Join(cfg, eol)+last), 0o600); err != nil {
 			return
 		}
 	}
@@ -369,6 +375,20 @@ func addrForm(pub []byte, atype string, testnet, ltc bool) string {
 		return hex.EncodeToString(pub)
 	}
 	return "?"
+}
+
+// impSpec shapes the .others file (bit i of a mask concerns entry i).
+type impSpec struct {
+	N           int  `json:"n"`       // entries 1..3 (0 = three, as in older replay files)
+	KeyCnt      int  `json:"keycnt"`  // deterministic keys of the importing wallet, listed behind the imported ones
+	Uncompr     int  `json:"uncompr"` // entry written as uncompressed WIF
+	CRLF        bool `json:"crlf"`
+	NoNL        bool `json:"nonl"`        // the last line has no line end
+	Blank       int  `json:"blank"`       // an empty line behind the entry
+	Trail       int  `json:"trail"`       // spaces behind the entry
+	NoLabel     int  `json:"nolabel"`     // entry without a label
+	Comment     bool `json:"comment"`     // a comment line in front
+	BlankSpaces bool `json:"blankspaces"` // the empty lines hold two spaces
 }
 
 type dumpedKey struct {
@@ -421,6 +441,8 @@ func findTagged(lines []string, tag string) string {
 }
 
 type binInfo struct {
+	lookups         int    // address -> key look-ups made in the importing wallet
+	impUncompr      bool   // an uncompressed key was imported
 	pathRefused     bool   // the spelled hdpath was refused
 	dialog          string // the first-time dialogue that was exercised
 	builds          int    // wallets built inside the one process of the -sign .. -send .. -l invocation
@@ -797,54 +819,213 @@ func checkBinary(c binCase) (info binInfo, err error) {
 				pfx, pw, append(append([]byte{}, bytes.Trim(pfx, " \t\r\n")...), pw...), listing[0], lj, desc(rj))
 		}
 	}
-	// exported WIF keys re-import (through the .others file of another wallet) to the same keys and addresses
+	// exported WIF keys re-import (through the .others file of another wallet) to the same keys and addresses, in
+	// every shape load_others accepts: lines "WIF [label]" ended by LF or CR LF, the last one also by the end of the
+	// file, empty lines and comment lines between them, spaces at the line ends; keys also re-encoded as
+	// uncompressed WIF (another public key form, hence another address).  Then every address -> key look-up the
+	// front ends offer must find the key whose address was listed.
 	{
 		dir3, err := os.MkdirTemp("", "c14w")
 		if err != nil {
 			return info, err
 		}
 		defer os.RemoveAll(dir3)
-		imp := binCase{Type: 3, AType: c.AType, Testnet: c.Testnet, Litecoin: c.Litecoin, KeyCnt: 1, HDSubs: 1,
-			Password: hex.EncodeToString([]byte("another wallet")), Via: "file", Flags: c.Flags}
+		im := c.Imp
+		nimp := im.N
+		if nimp <= 0 || nimp > 3 {
+			nimp = 3
+		}
+		if nimp > want {
+			nimp = want
+		}
+		detKeys := im.KeyCnt
+		if detKeys < 1 || detKeys > 3 {
+			detKeys = 1
+		}
+		imp := binCase{Type: 3, AType: c.AType, Testnet: c.Testnet, Litecoin: c.Litecoin, KeyCnt: detKeys, HDSubs: 1,
+			Password: hex.EncodeToString([]byte("another wallet")), Via: "file", Flags: c.Flags, CRLF: c.CRLF, CfgNoNL: c.CfgNoNL}
 		args3, stdin3, err := setupWallet(dir3, imp)
 		if err != nil {
 			return info, err
 		}
+		eol := "\n"
+		if im.CRLF {
+			eol = "\r\n"
+		}
+		type impKey struct {
+			wif   string
+			key   []byte
+			pub   []byte // in the form the WIF says
+			compr bool
+		}
+		var imps []impKey
 		var others strings.Builder
-		nimp := want
-		if nimp > 3 {
-			nimp = 3
+		if im.Comment {
+			others.WriteString("# exported keys" + eol)
 		}
 		for i := 0; i < nimp; i++ {
-			fmt.Fprintf(&others, "%s imported %d\n", dump[want-1-i].wif, i)
+			src := dump[want-1-i]
+			k := impKey{wif: src.wif, key: src.key, pub: pubs[want-1-i], compr: true}
+			if im.Uncompr>>uint(i)&1 == 1 {
+				k.compr = false
+				k.wif = addr.WIFEncode(wifVer, src.key, false)
+				k.pub = ec.SerializeUncompressed(ec.BaseMul(new(big.Int).SetBytes(src.key)))
+				info.impUncompr = true
+			}
+			imps = append(imps, k)
+			line := k.wif
+			if im.NoLabel>>uint(i)&1 == 0 {
+				line += fmt.Sprintf(" imported %d", i)
+			}
+			if im.Trail>>uint(i)&1 == 1 {
+				line += "  "
+			}
+			others.WriteString(line)
+			if i < nimp-1 || !im.NoNL {
+				others.WriteString(eol)
+			}
+			if im.Blank>>uint(i)&1 == 1 && (i < nimp-1 || !im.NoNL) {
+				if im.BlankSpaces {
+					others.WriteString("  ") // a "blank" line that holds spaces
+				}
+				others.WriteString(eol)
+			}
 		}
 		if err = os.WriteFile(filepath.Join(dir3, ".others"), []byte(others.String()), 0o600); err != nil {
 			return info, err
 		}
-		r3, err := runWallet(bin, dir3, stdin3, append(append([]string{}, args3...), "-dump", "*")...)
+		run3 := func(extra ...string) (runResult, error) {
+			return runWallet(bin, dir3, stdin3, append(append([]string{}, args3...), extra...)...)
+		}
+		r3, err := run3("-dump", "*")
 		if err != nil {
 			return info, err
 		}
-		d3, err := parseDump(r3.stdout, wifVer)
-		if err != nil {
-			return info, err
+		// -dump *: WIF, P2PKH address, label - imported keys first, in file order
+		type dumped struct {
+			wif, addr string
+			key       []byte
+			compr     bool
 		}
-		r4, err := runWallet(bin, dir3, stdin3, append(append([]string{}, args3...), "-l")...)
+		var d3 []dumped
+		for _, l := range strings.Split(r3.stdout, "\n") {
+			f := strings.Fields(l)
+			if len(f) < 2 {
+				continue
+			}
+			if ver, key, compr, ok := addr.WIFDecode(f[0]); ok && ver == wifVer {
+				d3 = append(d3, dumped{wif: f[0], addr: f[1], key: key, compr: compr})
+			}
+		}
+		r4, err := run3("-l")
 		if err != nil {
 			return info, err
 		}
 		l4, _ := os.ReadFile(filepath.Join(dir3, "wallet.txt"))
 		_, lines4 := listedLines(string(l4))
-		if r3.code != 0 || r4.code != 0 || len(d3) != nimp+1 || len(lines4) != nimp+1 {
-			return info, fmt.Errorf("a wallet with %d imported keys shows %d keys / %d addresses: %s\n%s", nimp, len(d3), len(lines4), desc(r3), desc(r4))
+		if r3.code != 0 || r4.code != 0 || len(d3) != nimp+detKeys || len(lines4) != nimp+detKeys {
+			return info, fmt.Errorf("a wallet with %d imported keys (.others: %q) and %d own keys shows %d keys / %d addresses: %s\n%s", nimp, others.String(), detKeys, len(d3), len(lines4), desc(r3), desc(r4))
 		}
-		for i := 0; i < nimp; i++ {
-			src := dump[want-1-i]
-			if d3[i].wif != src.wif || !bytes.Equal(d3[i].key, src.key) {
-				return info, fmt.Errorf("exported key %s re-imports as %s", src.wif, d3[i].wif)
+		verPub := byte(0)
+		if c.Testnet {
+			verPub = 111
+		} else if c.Litecoin {
+			verPub = 48
+		}
+		type lookup struct {
+			address string
+			pos     int
+		}
+		var lookups []lookup
+		for i := range d3 {
+			pub := ec.SerializeCompressed(ec.BaseMul(new(big.Int).SetBytes(d3[i].key)))
+			if i < nimp {
+				if d3[i].wif != imps[i].wif || !bytes.Equal(d3[i].key, imps[i].key) {
+					return info, fmt.Errorf("exported key %s re-imports as %s", imps[i].wif, d3[i].wif)
+				}
+				pub = imps[i].pub
+			} else if !d3[i].compr {
+				return info, fmt.Errorf("the wallet's own key %s is not compressed", d3[i].wif)
 			}
-			if got, exp := strings.Fields(lines4[i])[0], strings.Fields(lines[want-1-i])[0]; got != exp {
-				return info, fmt.Errorf("exported key %s had address %s, after re-import %s", src.wif, exp, got)
+			p2pkh := addr.Base58CheckEncode(append([]byte{verPub}, hd.Hash160(pub)...))
+			if d3[i].addr != p2pkh {
+				return info, fmt.Errorf("-dump * shows %s next to key %s whose P2PKH address is %s", d3[i].addr, d3[i].wif, p2pkh)
+			}
+			listed := strings.Fields(lines4[i])[0]
+			exp := ""
+			switch {
+			case len(pub) == 33:
+				exp = addrForm(pub, c.AType, c.Testnet, c.Litecoin)
+				if i < nimp {
+					// the same key had this address in the wallet it was exported from
+					if orig := strings.Fields(lines[want-1-i])[0]; orig != exp {
+						return info, fmt.Errorf("exported key %s had address %s there, the reference says %s", d3[i].wif, orig, exp)
+					}
+				}
+			case c.AType == "p2kh":
+				exp = p2pkh
+			case c.AType == "pks":
+				exp = hex.EncodeToString(pub)
+			default:
+				exp = "-=CompressedKey=-" // the wallet's marker: no segwit address exists for an uncompressed key
+			}
+			if listed != exp {
+				return info, fmt.Errorf("key %s (position %d of the importing wallet) is listed as %s, expected %s", d3[i].wif, i, listed, exp)
+			}
+			// the address forms under which the wallet can find this key again
+			lookups = append(lookups, lookup{p2pkh, i})
+			if len(pub) == 33 && !c.Litecoin {
+				lookups = append(lookups, lookup{addrForm(pub, "bech32", c.Testnet, false), i}, lookup{addrForm(pub, "tap", c.Testnet, false), i})
+			}
+			if len(pub) == 33 && (c.AType == "p2kh" || c.AType == "segwit" || c.AType == "pks") {
+				lookups = append(lookups, lookup{addrForm(pub, "segwit", c.Testnet, c.Litecoin), i})
+			}
+		}
+		for _, lu := range lookups {
+			r5, err := run3("-dump", lu.address)
+			if err != nil {
+				return info, err
+			}
+			got := ""
+			for _, l := range strings.Split(r5.stdout, "\n") {
+				if strings.HasPrefix(l, "Private encoded:") {
+					got = strings.TrimSpace(strings.TrimPrefix(l, "Private encoded:"))
+				}
+			}
+			if r5.code != 0 || got != d3[lu.pos].wif {
+				return info, fmt.Errorf("-dump %s finds %q, the address belongs to key %s at position %d (imported keys: %d, uncompressed mask %b): %s", lu.address, got, d3[lu.pos].wif, lu.pos, nimp, im.Uncompr, desc(r5))
+			}
+			info.lookups++
+		}
+		// message signing looks the key up by address as well: the first and the last key
+		for _, i := range []int{0, len(d3) - 1} {
+			msg := "lookup " + d3[i].addr
+			r6, err := run3("-sign", d3[i].addr, "-msg", msg)
+			if err != nil {
+				return info, err
+			}
+			pubC := ec.SerializeCompressed(ec.BaseMul(new(big.Int).SetBytes(d3[i].key)))
+			ok := false
+			for _, l := range strings.Split(r6.stdout, "\n") {
+				sig, e := base64.StdEncoding.DecodeString(strings.TrimSpace(l))
+				if e != nil || len(sig) != 65 || sig[0] < 27 || sig[0] > 34 {
+					continue
+				}
+				magic := "Bitcoin Signed Message:\n"
+				if c.Litecoin {
+					magic = "Litecoin Signed Message:\n"
+				}
+				pre := append(append([]byte{byte(len(magic))}, magic...), byte(len(msg)))
+				h1 := sha256.Sum256(append(pre, msg...))
+				h2 := sha256.Sum256(h1[:])
+				pt, rok := ec.Recover(new(big.Int).SetBytes(sig[1:33]), new(big.Int).SetBytes(sig[33:65]), new(big.Int).SetBytes(h2[:]), int((sig[0]-27)&3))
+				if !rok || !bytes.Equal(ec.SerializeCompressed(pt), pubC) || (sig[0] >= 31) != d3[i].compr {
+					return info, fmt.Errorf("-sign %s: the signature %s does not recover key %s (or has the wrong compression flag)", d3[i].addr, l, d3[i].wif)
+				}
+				ok = true
+			}
+			if !ok {
+				return info, fmt.Errorf("-sign %s -msg .. printed no signature: %s", d3[i].addr, desc(r6))
 			}
 		}
 	}
@@ -1248,6 +1429,17 @@ func genBinCase(t *rapid.T) binCase {
 		c.Bip39 = rapid.SampledFrom([]int{-1, -1, -1, 0, 0, 12, 15, 18, 21, 24}).Draw(t, "bip39")
 	}
 	c.CRLF = rapid.IntRange(0, 4).Draw(t, "crlf") == 0
+	c.CfgNoNL = rapid.IntRange(0, 2).Draw(t, "cfgnonl") == 0
+	c.Imp = impSpec{N: rapid.IntRange(1, 3).Draw(t, "imp_n"), KeyCnt: rapid.IntRange(1, 3).Draw(t, "imp_keycnt"),
+		CRLF: rapid.IntRange(0, 2).Draw(t, "imp_crlf") == 0, NoNL: rapid.Bool().Draw(t, "imp_nonl"),
+		Comment: rapid.IntRange(0, 3).Draw(t, "imp_comment") == 0}
+	if rapid.Bool().Draw(t, "imp_unc") {
+		c.Imp.Uncompr = rapid.IntRange(1, 7).Draw(t, "imp_uncmask")
+	}
+	if rapid.IntRange(0, 2).Draw(t, "imp_shape") == 0 {
+		c.Imp.BlankSpaces = rapid.Bool().Draw(t, "imp_blankspaces")
+		c.Imp.Blank, c.Imp.Trail, c.Imp.NoLabel = rapid.IntRange(0, 7).Draw(t, "imp_blank"), rapid.IntRange(0, 7).Draw(t, "imp_trail"), rapid.IntRange(0, 7).Draw(t, "imp_nolabel")
+	}
 	c.Dialog = rapid.SampledFrom([]string{"save_y", "save_y", "save_n", "retry_y", "single_y", "ask_p", "mismatch", "", ""}).Draw(t, "dialog")
 	if c.Bip39 == -1 {
 		c.Scrypt = 0 // the wallet refuses scrypt together with a user mnemonic
@@ -1391,6 +1583,25 @@ func TestWalletBinary(t *testing.T) {
 			} else {
 				r.Class("hdpath_accepted")
 			}
+		}
+		if info.lookups > 0 {
+			r.Class("address_lookups_in_importing_wallet")
+			pbt.AddExtra("address_to_key_lookups", int64(info.lookups))
+			if info.impUncompr {
+				r.Class("imported_uncompressed_key")
+			}
+			if c.Imp.NoNL {
+				r.Class("others_last_line_without_newline")
+			}
+			if c.Imp.CRLF {
+				r.Class("others_crlf")
+			}
+			if c.Imp.Blank|c.Imp.Trail != 0 || c.Imp.Comment {
+				r.Class("others_blank_comment_trailing_spaces")
+			}
+		}
+		if c.CfgNoNL && !c.Flags {
+			r.Class("cfg_last_line_without_newline")
 		}
 		if info.dialog != "" {
 			r.Class("first_time_dialog")
